@@ -546,6 +546,8 @@ def check(run, db, tier):
     from .c02 import Proxy
     run.group(c08.emit_rules, Proxy(run, {'C08.emit': 'C09.id'}), db)
     run.group(c07.compose_rules, Proxy(run, {'C07.compose': 'C09.id'}), db)
+    from . import fixedorders
+    run.group(fixedorders.fixed_order_rules, run, db, 'C09.id', None, lambda q: '_der_seq' in q)
     run.group(seed_rules, run, db)
     run.group(rule_rules, run, db)
     run.group(offaxis_rules, run, db)
